@@ -97,6 +97,27 @@ fn jts(x: &impl ToTokens) -> J {
     s(ts(x))
 }
 
+/// split a run of joint punctuation into Rust operators (greedy), e.g. ">::" -> [">", "::"], ">:" -> [">", ":"]
+fn split_punct(p: &str, out: &mut Vec<J>) {
+    const OPS: &[&str] = &["..=", "...", "<<=", ">>=", "::", "=>", "->", "==", "!=", "<=", ">=", "&&", "||", "..", "+=", "-=", "*=", "/=", "|=", "&=", "^=", "%="];
+    let mut rest = p;
+    while !rest.is_empty() {
+        // `<`/`>` are always split off so that generic brackets stay single tokens
+        let mut taken = None;
+        if !(rest.starts_with('<') || rest.starts_with('>')) {
+            for op in OPS {
+                if rest.starts_with(op) {
+                    taken = Some(op.len());
+                    break;
+                }
+            }
+        }
+        let n = taken.unwrap_or_else(|| rest.chars().next().unwrap().len_utf8());
+        out.push(s(&rest[..n]));
+        rest = &rest[n..];
+    }
+}
+
 /// token tree → nested JSON: idents/puncts/literals as strings, groups as {"d": "(", "ts": [...]}
 fn tokens_json(t: TokenStream) -> J {
     let mut out = Vec::new();
@@ -106,12 +127,12 @@ fn tokens_json(t: TokenStream) -> J {
             TokenTree::Punct(p) => {
                 pending_punct.push(p.as_char());
                 if p.spacing() == proc_macro2::Spacing::Alone {
-                    out.push(s(std::mem::take(&mut pending_punct)));
+                    split_punct(&std::mem::take(&mut pending_punct), &mut out);
                 }
             }
             other => {
                 if !pending_punct.is_empty() {
-                    out.push(s(std::mem::take(&mut pending_punct)));
+                    split_punct(&std::mem::take(&mut pending_punct), &mut out);
                 }
                 match other {
                     TokenTree::Group(g) => {
@@ -131,7 +152,7 @@ fn tokens_json(t: TokenStream) -> J {
         }
     }
     if !pending_punct.is_empty() {
-        out.push(s(pending_punct));
+        split_punct(&pending_punct, &mut out);
     }
     J::Arr(out)
 }
